@@ -488,6 +488,7 @@ func propC11() *PropSpec {
 			js = append(js, jobsN("html", "VerifHTMLEmbedDataURI", pick(rng(1, 3), rng(1, 4)), "data: URIs in img src / link href with and without parameters")...)
 			js = append(js, jobsN("css", "VerifCSSDataURL", rng(1, 3), "css host: data URI inside url(), unquoted or in either quote: re-encoded payload stays correctly quoted for CSS")...)
 			js = append(js, jobsN("svg", "VerifSVGEmbed", pick(rng(1, 3), rng(1, 4)), "svg style element (plain / CDATA) and style attribute, svg called with and without the inline parameter")...)
+			js = append(js, jobsN("svg", "VerifSVGStyleDispatch", []int{0}, "8 svg documents: which pieces reach the CSS minifier (style type, empty style elements, CDATA) and with which bytes")...)
 			js = append(js, Job{Pkg: "html", Fn: "VerifHTMLTwin", N: 0, ExpectFail: true, Desc: "vacuity twin"})
 			return js
 		},
